@@ -38,9 +38,11 @@ namespace vsp
         sc.fc = gen_flow_case(s, o);
         sc.ops = gen_valid_program(s, false, &sc.pi);
         static const double ms[] = { 0.5, 0.0, 0.4, 1.0, 2.0 };
-        static const double ns[] = { 1.0, 0.5, 0.8, 1.5, 2.0, 3.0 };
+        // slope exponents below, at and above one, including values next to one (the linear /
+        // non-linear switch) and far from it
+        static const double ns[] = { 1.0, 0.5, 0.8, 1.5, 2.0, 3.0, 0.3, 0.99, 1.01, 4.0 };
         sc.m = ms[s.weighted({ 90, 30, 50, 50, 36 })];
-        sc.n = ns[s.weighted({ 80, 40, 30, 40, 40, 26 })];
+        sc.n = ns[s.weighted({ 72, 36, 26, 36, 36, 22, 8, 6, 6, 8 })];
         if (force_single_for_nonlinear && sc.pi.final_multi)
             sc.n = 1.0;
         int kexp = static_cast<int>(s.range(0, 8)) - 6;
@@ -165,15 +167,18 @@ namespace vsp
         }
         else if (chg == 3 && !sc.pi.final_multi)
         {
-            static const double ns[] = { 1.0, 0.5, 0.8, 1.5, 2.0, 3.0 };
-            sc.n = ns[s.u8() % 6];
+            static const double ns[] = { 1.0, 0.5, 0.8, 1.5, 2.0, 3.0, 0.3, 0.99, 1.01, 4.0 };
+            sc.n = ns[s.u8() % 10];
             r.spl->set_slope_exp(sc.n);
             what += " set_slope_exp(" + vg::fmt(sc.n) + ")";
         }
         r.kn = sc.k_is_array ? sc.karr : std::vector<double>(n, sc.k);
+        if (c.verbose)  // before the call: visible even if it never returns
+            std::cout << "NEXT" << what << " erode(z=" << vg::describe_field(r.z, 0) << ")" << std::endl;
+        c.desc += " |" + what + " erode";
         r.e = r.spl->erode(r.z, r.area, sc.dt);
         r.n_corr = r.spl->n_corr();
-        return what + " erode";
+        return "";
     }
 
     // lowest post-erosion elevation among the receivers of node i
